@@ -420,6 +420,8 @@ type Backend struct {
 	Behave func(bc *BackendConn) // per accepted connection; default: StandardJoin then Pump
 	Refuse bool                  // close immediately after accept
 	OnPacket func(bc *BackendConn, p mcwire.Packet)
+	// OnAccept, if set, sees every accepted connection before it is served (e.g. to install a mcwire tap).
+	OnAccept func(bc *BackendConn)
 	wg     sync.WaitGroup
 }
 
@@ -469,7 +471,11 @@ func (b *Backend) serve() {
 		b.conns = append(b.conns, bc)
 		refuse := b.Refuse
 		behave := b.Behave
+		onAccept := b.OnAccept
 		b.mu.Unlock()
+		if onAccept != nil {
+			onAccept(bc)
+		}
 		if refuse {
 			_ = c.Close()
 			continue
